@@ -242,24 +242,60 @@ theorem convertVar_sound (c : RCtx) (x : Name) (sym : Sym)
         · simp only [Prod.mk.injEq] at h
           rw [← h.1] at hl; simp at hl
 
-/-- `convert_qualified_var` checks the *resolved* name, then returns the end of its alias chain. -/
+/-- `convert_qualified_var` checks the *resolved* name, returns the end of its alias chain, and — since /repo 3b64798 —
+when the chain moved and the resolved name has a visibility entry, checks the end of the chain as well. -/
 theorem convertQVar_sound (c : RCtx) (segs : List Name) (sym : Sym) (h2 : 2 ≤ segs.length)
     (h : convertQVar c segs = (sym, [])) :
     let r := (resolveQualifiedPath segs segs c.cur c.known).1
-    sym = aliasChain c.info.alias r ∧ (get? c.info.vis r = some false → r.dropLast <+: c.cur) := by
+    sym = aliasChain c.info.alias r ∧ (get? c.info.vis r = some false → r.dropLast <+: c.cur) ∧
+    (sym ≠ r → (get? c.info.vis r).isSome → get? c.info.vis sym = some false → 2 ≤ sym.length →
+      sym.dropLast <+: c.cur) := by
   intro r
   unfold convertQVar at h
   simp only [Prod.mk.injEq] at h
   obtain ⟨h1, hE⟩ := h
-  refine ⟨h1.symm, ?_⟩
-  intro hv
   have hlen : 1 < (resolveQualifiedPath segs segs c.cur c.known).2.length := by
     rw [← resolveQualifiedPath_fst_eq_snd]
     have := resolveQualifiedPath_length segs c.cur c.known
     omega
-  rw [if_pos hlen] at hE
-  rw [← resolveQualifiedPath_fst_eq_snd] at hE
-  exact privErr_nil hE hv
+  rw [if_pos hlen, ← resolveQualifiedPath_fst_eq_snd, h1] at hE
+  refine ⟨h1.symm, ?_, ?_⟩
+  · intro hv
+    rw [show get? c.info.vis (resolveQualifiedPath segs segs c.cur c.known).1 = some false from hv] at hE
+    simp only at hE
+    split at hE
+    · simp at hE
+    · rename_i hh
+      simp only [Bool.not_false, Bool.true_and, Bool.not_eq_true', Bool.not_eq_false] at hh
+      exact isWithinHierarchy_prefix hh
+  · intro hne hsome hv hl
+    obtain ⟨pub, hpub⟩ := Option.isSome_iff_exists.mp hsome
+    rw [show get? c.info.vis (resolveQualifiedPath segs segs c.cur c.known).1 = some pub from hpub] at hE
+    simp only at hE
+    split at hE
+    · simp at hE
+    · rw [if_pos ⟨hne, hl⟩] at hE
+      exact privErr_nil hE hv
+
+/-- invariant of every `ModuleInfo` the flattening builds: an alias key with a module part is a re-exported name, and
+`register_alias` writes its visibility entry together with it (nothing ever removes an entry) -/
+def AliasKeysVis (i : Info) : Prop := ∀ k : Sym, 2 ≤ k.length → (get? i.alias k).isSome → (get? i.vis k).isSome
+
+/-- under that invariant the member a path reference *returns* is checked, whether or not the alias chain moved -/
+theorem convertQVar_sound_target (c : RCtx) (hinv : AliasKeysVis c.info) (segs : List Name) (sym : Sym)
+    (h2 : 2 ≤ segs.length) (h : convertQVar c segs = (sym, [])) (hv : get? c.info.vis sym = some false)
+    (hl : 2 ≤ sym.length) : sym.dropLast <+: c.cur := by
+  obtain ⟨hs, hp, ht⟩ := convertQVar_sound c segs sym h2 h
+  have hr2 : 2 ≤ (resolveQualifiedPath segs segs c.cur c.known).1.length := by
+    have := resolveQualifiedPath_length segs c.cur c.known; omega
+  by_cases hne : sym = (resolveQualifiedPath segs segs c.cur c.known).1
+  · rw [hne] at hv ⊢
+    exact hp hv
+  · apply ht hne _ hv hl
+    apply hinv _ hr2
+    cases hg : get? c.info.alias (resolveQualifiedPath segs segs c.cur c.known).1 with
+    | some t => rfl
+    | none => exact absurd (hs.trans (aliasChain_of_none _ _ hg)) hne
 
 /-! ### `ModuleInfo` of a tree without re-exports -/
 
